@@ -49,8 +49,9 @@ class SDBuilder:
                  max_parts=2, share=True, vtree=None, domains=None, sum_kinds=None,
                  leaf_sum_p=0.3, mixing=True, kron_max_out=16, ncat_max=3, deg_max=2,
                  gauss_lp=True, emb_kinds=None, learn_mix=False, norm_inputs=False, decisions=None,
-                 max_reps=1, leaf_kinds=None):
+                 max_reps=1, leaf_kinds=None, cat_kinds=None):
         self.draw = draw
+        self.cat_kinds = cat_kinds or NORM_KINDS  # parameterisation of categorical probs ("simplex0": normalised with exact zeros)
         self.input_types = tuple(input_types)
         self.nonneg = nonneg
         self.cx = cx
@@ -147,7 +148,10 @@ class SDBuilder:
         t = d(st.sampled_from(cands))
         n = dom[1] if dom[0] == "d" else None
         if t == "cat":
-            L = {"t": "cat", "v": v, "K": K, "n": n, "p": pk(d(st.sampled_from(NORM_KINDS)))}
+            ck = d(st.sampled_from(self.cat_kinds))
+            # "simplex0": a plain tensor whose written values are normalised rows WITH exact zeros
+            L = {"t": "cat", "v": v, "K": K, "n": n,
+                 "p": pk("plain", role="simplex0") if ck == "simplex0" else pk(ck)}
         elif t == "catl":
             L = {"t": "catl", "v": v, "K": K, "n": n,
                  "p": pk("plain")}
@@ -158,8 +162,11 @@ class SDBuilder:
         elif t == "binl":
             L = {"t": "binl", "v": v, "K": K, "n": n - 1, "p": pk("plain")}
         elif t == "emb":
-            kinds = self.emb_kinds or (NONNEG_KINDS if self.nonneg else REAL_KINDS)
-            p = pk(d(st.sampled_from(kinds)))
+            # "plain0": a plain tensor written with non-negative values, a fifth of them EXACTLY zero (the ordinary
+            # way to write a hard embedding; -inf in a log-space semiring)
+            kinds = self.emb_kinds or (NONNEG_KINDS + ["plain0", "plain0"] if self.nonneg else REAL_KINDS)
+            ek = d(st.sampled_from(kinds))
+            p = pk("plain", role="nonneg0") if ek == "plain0" else pk(ek)
             if self.cx and p["k"] == "plain" and d(st.booleans()):
                 p["cx"] = True
             L = {"t": "emb", "v": v, "K": K, "n": n, "p": p}
